@@ -86,26 +86,25 @@ Definition rebase_exact (c : cfgT) (f f' : fsT) (a b0 : bytes) : bool :=
      | _, _ => false
      end.
 
-Definition step_spec (c : cfgT) (w : wobs) (s : step) : bool :=
-  let f := wo_fs w in let w' := after w s in let f' := wo_fs w' in
-  let plain := negb (e_pretend (s_env s)) && match e_fault (s_env s) with NoFault => true | _ => false end in
+Definition step_spec (c : cfgT) (w : wobs) (v : sview) : bool :=
+  let f := wo_fs w in let w' := v_after v in let f' := wo_fs w' in
+  let plain := negb (e_pretend (v_env v)) && match e_fault (v_env v) with NoFault => true | _ => false end in
   (* every command returns *)
-  match s_res s with RDiverge | RPanic => false | _ => true end
+  match v_res v with RDiverge | RPanic => false | _ => true end
   (* the forest stays a forest *)
   && (negb (forest_ok c f) || forest_ok c f')
   (* breaking requests are refused and change nothing *)
-  && (negb (forest_ok c f && base_set_up c f && breaking c f (s_cmd s))
-      || (rclass_beq (s_res s) RFail && delta_empty (s_delta s)
-          && ktab_beq (s_ktab s) (ks_tab (wo_ks w))))
+  && (negb (forest_ok c f && base_set_up c f && breaking c f (v_cmd v))
+      || (rclass_beq (v_res v) RFail && unchanged w v))
   (* exact effect of successful rename / rebase *)
   && (negb plain ||
-      match s_cmd s, s_res s with
+      match v_cmd v, v_res v with
       | CRename a n, ROk => rename_exact c f f' a n
       | CRebase a b0, ROk => rebase_exact c f f' a b0
       | _, _ => true
       end).
 
-Definition spec (c : case) (steps : list step) : bool := along (step_spec (c_cfg c)) (w0 c) steps.
+Definition spec (c : case) (steps : list step) : bool := along_views (step_spec (c_cfg c)) (w0 c) steps.
 Definition wf := LC.wf.
 Definition kf (c : case) : N := 0.
 Definition model (c : case) : bool := LC.corr c.      (* the model reproduces every step *)
